@@ -123,6 +123,33 @@ class SInt(Proxy):
     def __pos__(self): return self
     def __abs__(self): return SInt(z3.If(self.t >= 0, self.t, -self.t))
 
+    # bit operations: exact for the shapes that have an integer-arithmetic meaning, loud otherwise
+    def __and__(self, o):
+        if isinstance(o, int) and not isinstance(o, bool) and o >= 0 and (o & (o + 1)) == 0:
+            return SInt(self.t % (o + 1))            # x & (2^k - 1) == x mod 2^k (Python semantics, also for negative x)
+        raise core.Unsupported("bitwise & on a symbolic int with %r" % (o,))
+
+    __rand__ = __and__
+
+    def __rshift__(self, o):
+        if isinstance(o, int) and o >= 0:
+            return SInt(_floordiv(self.t, z3.IntVal(2 ** o)))
+        raise core.Unsupported("symbolic shift amount")
+
+    def __lshift__(self, o):
+        if isinstance(o, int) and o >= 0:
+            return SInt(self.t * (2 ** o))
+        raise core.Unsupported("symbolic shift amount")
+
+    def __or__(self, o):
+        raise core.Unsupported("bitwise | on a symbolic int")
+
+    def __xor__(self, o):
+        raise core.Unsupported("bitwise ^ on a symbolic int")
+
+    __ror__ = __or__
+    __rxor__ = __xor__
+
     def __floordiv__(self, o):
         return self._bin(o, _floordiv)
 
@@ -267,6 +294,15 @@ class SReal(Proxy):
 
     def __ceil__(self):
         return SInt(-z3.ToInt(-self.t))
+
+    def __round__(self, ndigits=None):
+        """round(x): nearest integer, ties to even (CPython float.__round__; exact reals: A-FLOAT)."""
+        if ndigits is not None:
+            raise core.Unsupported("round(x, ndigits) on a symbolic real")
+        half = self.t + z3.RealVal(1) / 2
+        fl = z3.ToInt(half)
+        tie = z3.ToReal(fl) == half
+        return SInt(z3.If(z3.And(tie, fl % 2 != 0), fl - 1, fl))
 
     def __repr__(self):
         return "SReal(%s)" % self.t
